@@ -244,6 +244,21 @@ class Session:
             return ts.is_primitive(ts.get_type(o["name"]))
         if k == "types":
             return [t.name for t in ts.get_types(o.get("built_in", False))]
+        if k == "identity":
+            # every Type object reachable through supertypes, children and feature domain/range/element
+            # types is the one registered under its name
+            reg = ts._types
+            for t in reg.values():
+                if t.supertype is not None and reg.get(t.supertype.name) is not t.supertype:
+                    return False
+                for c in t._children.values():
+                    if reg.get(c.name) is not c:
+                        return False
+                for f in t.all_features:
+                    for x in (f.domainType, f.rangeType, f.elementType):
+                        if x is not None and reg.get(x.name) is not x:
+                            return False
+            return True
         raise BadOp(k)
 
     def op_fs_new(self, o):
